@@ -139,7 +139,7 @@ Proof.
       + rewrite S6 in E0. rewrite Z0 in E0. discriminate.
       + rewrite F4. fold target. rewrite Hp, Hl. reflexivity. }
   assert (Hl0 : b_origin_leader b <> 0).
-  { rewrite F3, A2. intros C. subst l0. apply lk_Some in Hlp as [Hin Hs].
+  { rewrite F3, A2. intros C. apply lk_Some in Hlp as [Hin Hs]. rewrite C in Hs.
     unfold new_builder in Enb. rewrite Er in Enb. cbn [peers] in Enb.
     destruct (existsb (fun p => pstore p =? 0) ps0) eqn:E; [discriminate|].
     assert (X : existsb (fun p => pstore p =? 0) ps0 = true) by (apply existsb_exists; exists lp; split; [exact Hin|apply Z.eqb_eq; exact Hs]).
@@ -172,34 +172,34 @@ Proof.
   - apply HD_nodup; assumption.
   - intros x Hx. eapply HPD_disjoint; eauto.
   - apply rem_nd; assumption.
-  - intros p Hp. eapply (proj1 (HR_char ps0 target alloc Hnd Hnj A6 A7 p Hp)).
-  - intros p Hp C. pose proof (rem_not_target ps0 target alloc Hnd Hnj A6 A7 p Hp) as X. unfold tvoter in Htv. rewrite <- C in Htv. rewrite X in Htv. discriminate.
+  - intros p Hp. assert (X : lk (post_joint (pairs_of (cfold f_voter_add (cfold (f_add (pm_of_list ps0) true alloc) target []) (cfold (f_pro target) (pm_of_list ps0) []))) (pairs_of (cfold f_voter_rem (cfold (f_rem target true) (pm_of_list ps0) []) (cfold (f_dem target true) (pm_of_list ps0) []))) (ps0 ++ map learner_of (cfold (f_add (pm_of_list ps0) true alloc) target []))) (pstore p) = Some (Peer (pstore p) (pid p) Learner) /\ pm_get target (pstore p) = None) by (eapply HR_char; eauto). exact (proj1 X).
+  - intros p Hp C. assert (X : pm_get target (pstore p) = None) by (eapply rem_not_target; eauto). unfold tvoter in Htv. rewrite <- C in Htv. rewrite X in Htv. discriminate.
   - (* the leader *)
     assert (Hov : forall st, Ovoter b st = ovoter ps0 st).
     { intros st. unfold Ovoter, ovoter. rewrite F2, A1. rewrite (pm_of_list_get _ _ Hnd). reflexivity. }
     assert (Htvb : forall st, Tvoter b st = tvoter target st) by (intros st; unfold Tvoter, tvoter; rewrite F4; reflexivity).
     assert (HnotD : forall st, tvoter target st = true -> ~ In st (map fst (pairs_of (cfold f_voter_rem (cfold (f_rem target true) (pm_of_list ps0) [])
                                           (cfold (f_dem target true) (pm_of_list ps0) []))))).
-    { intros st Ht C. pose proof (D_not_tvoter ps0 target Hnd A6 st C) as X. congruence. }
+    { intros st Ht C. assert (X : tvoter target st = false) by (eapply D_not_tvoter; eauto). congruence. }
     rewrite F3, A2 in Hmode. fold tl in Hmode.
     destruct m.
     + destruct Hmode as (Hne & Ho). split; [auto|]. split; [|apply HnotD; exact Htv].
-      rewrite Hov in Ho. apply (ps1_at_ovoter ps0 target alloc Hnd Hnj A6 tl Ho).
+      rewrite Hov in Ho. eapply ps1_at_ovoter; eauto.
     + destruct Hmode as (Hne & Ho & Ht). split; [auto|]. split; [apply HnotD; rewrite <- Htvb; exact Ht|].
-      apply (ps4_at_voter ps0 target alloc Hnd Hnj A6 A7 tl Htv).
+      eapply ps4_at_voter; eauto.
     + destruct Hmode as (Hne & Ho & Ht). split; [auto|].
-      rewrite Hov in Ho. apply (P_when ps0 target alloc Hnd A6 tl Ho Htv).
-    + subst l0. split; [reflexivity|]. apply HnotD. exact Htv.
+      rewrite Hov in Ho. eapply P_when; eauto.
+    + split; [symmetry; exact Hmode|]. rewrite Hmode. apply HnotD. exact Htv.
   - (* voters of the origin *)
     unfold goal_of; cbn [g_min_voters]. rewrite F2, A1. unfold voters_old at 1, voters_new at 1.
     rewrite !(countb_pm_of_list _ _ Hnd). fold (voters_old ps0) (voters_new ps0). lia.
   - unfold goal_of; cbn [g_min_voters]. rewrite F2, A1. unfold voters_old at 1, voters_new at 1.
     rewrite !(countb_pm_of_list _ _ Hnd). fold (voters_old ps0) (voters_new ps0). lia.
-  - rewrite (voters_new_enter ps0 target alloc Hnd Hnj A6 A7).
+  - erewrite voters_new_enter; eauto.
     unfold goal_of; cbn [g_min_voters]. rewrite F4. fold target. lia.
   - unfold goal_of; cbn [g_target]. rewrite F4. fold target.
     apply same_placement_lookup; [apply psF_nd; assumption|apply PSorted_ND; exact A6|].
-    intros st. apply (final_lookup ps0 target alloc Hnd Hnj A6 A7 st).
+    intros st. eapply final_lookup; eauto.
   - (* requested leader *)
     unfold goal_of; cbn [g_leader]. destruct (b_tleader b =? 0) eqn:E0; [left; apply Z.eqb_eq; exact E0|right].
     unfold tl, joint_tl, set_target_leader_if_not_exist.
